@@ -304,7 +304,7 @@ theorem runP_noPanic (p : P) (args : List Bytes) (env : Env) :
   | bytes _ => cases args <;> simp [runP, stepIsPanic]
   | int _ => cases args <;> simp only [runP] <;> (try split) <;> rfl
   | float _ => cases args <;> simp only [runP] <;> (try split) <;> rfl
-  | enum _ _ => cases args <;> simp only [runP] <;> (try split) <;> rfl
+  | enum _ _ => cases args <;> simp only [runP] <;> (try split) <;> (try split) <;> rfl
   | strings _ => cases args <;> simp [runP, stepIsPanic]
   | anys _ => cases args <;> simp [runP, stepIsPanic]
   | anyMap _ => simp only [runP]; split <;> rfl
@@ -523,8 +523,10 @@ theorem leaf_foot (p : P) (hl : isLeaf p = true) (args : List Bytes) (env : Env)
       simp only [runP] at h
       split at h
       · cases h
-        exact foot_set _ _ (List.suffix_cons _ _) (by simp [slotsOf]) (intOK_of_not_int (by simp))
-      · cases h
+      · split at h
+        · cases h
+          exact foot_set _ _ (List.suffix_cons _ _) (by simp [slotsOf]) (intOK_of_not_int (by simp))
+        · cases h
   | strings s =>
     cases args with
     | nil => simp [runP] at h; obtain ⟨rfl, rfl, rfl⟩ := h; exact foot_unfired _ _ _
